@@ -51,44 +51,51 @@ def main():
         import pyx2py
         pyx_info = pyx2py.tie(V, str(common.REPO), common.rng_for(args.seed, "pyx"))
 
-    # 2a'. C13: the position arithmetic of pyramid.py is TRANSLATED into Gallina on every build
-    #      (harness/py2coq.py -> Generated/PyramidSrc.v, proofs in Proofs/PyramidSrcP.v).  bin/build
-    #      translates /repo; when the tree under test is a scratch copy (TOASTY_REPO), translate it
-    #      here and check the same proofs against it privately.
+    # 2a'. C13 / C08: the position arithmetic and generators of pyramid.py, and class StudyTiling of
+    #      study.py, are TRANSLATED into Gallina on every build (harness/py2coq.py ->
+    #      Generated/PyramidSrc.v, Generated/StudySrc.v; proofs in Proofs/PyramidSrcP.v,
+    #      Proofs/StudySrcP.v).  bin/build translates /repo; when the tree under test is a scratch
+    #      copy (TOASTY_REPO), translate it here and check the same proofs against it privately.
     translated = None
-    if pid == "C13":
+    TIES = {"C13": ("pyramid", "PyramidSrc", "PyramidSrcP", "toasty/pyramid.py", "position algebra and generators"),
+            "C08": ("study", "StudySrc", "StudySrcP", "toasty/study.py", "StudyTiling model")}
+    if pid in TIES:
         import hashlib
         import py2coq
+        which, gen, prf, srcname, what = TIES[pid]
         try:
-            text = py2coq.translate_pyramid(common.REPO)
-            translated = dict(functions=py2coq.PYRAMID_FUNCS, sha256=hashlib.sha256(text.encode()).hexdigest()[:16])
-            tree_file = common.COQ / "theories" / "Generated" / "PyramidSrc.v"
+            text = {"pyramid": py2coq.translate_pyramid, "study": py2coq.translate_study}[which](common.REPO)
+            funcs = py2coq.PYRAMID_FUNCS if which == "pyramid" else ["next_highest_power_of_2"] + ["StudyTiling." + m for m in py2coq.STUDY_METHODS]
+            translated = dict(source=srcname, functions=funcs, sha256=hashlib.sha256(text.encode()).hexdigest()[:16])
+            tree_file = common.COQ / "theories" / "Generated" / (gen + ".v")
             if not tree_file.exists() or tree_file.read_text() != text:
                 w = common.workdir() / "gen"
                 (w / "Generated").mkdir(parents=True, exist_ok=True)
                 (w / "Proofs").mkdir(parents=True, exist_ok=True)
-                (w / "Generated" / "PyramidSrc.v").write_text(text)
-                proof = (common.COQ / "theories" / "Proofs" / "PyramidSrcP.v").read_text()
-                proof = proof.replace("From Toasty Require Import Model.Quadtree Model.Study Generated.PyramidSrc.",
-                                      "From Toasty Require Import Model.Quadtree Model.Study.\nFrom ToastyAlt Require Import Generated.PyramidSrc.")
-                (w / "Proofs" / "PyramidSrcP.v").write_text(proof)
+                (w / "Generated" / (gen + ".v")).write_text(text)
+                proof = (common.COQ / "theories" / "Proofs" / (prf + ".v")).read_text()
+                old = f"From Toasty Require Import Generated.{gen}."
+                if old not in proof:
+                    raise RuntimeError(f"Proofs/{prf}.v does not import Generated.{gen} on a line of its own")
+                proof = proof.replace(old, f"From ToastyAlt Require Import Generated.{gen}.")
+                (w / "Proofs" / (prf + ".v")).write_text(proof)
                 log = ""
                 ok = True
-                for f in (w / "Generated" / "PyramidSrc.v", w / "Proofs" / "PyramidSrcP.v"):
+                for f in (w / "Generated" / (gen + ".v"), w / "Proofs" / (prf + ".v")):
                     rc, so, se = common.coqc_file(f, extra_q=[(w, "ToastyAlt")])
                     if rc != 0:
                         ok, log = False, (so + se)[-1500:]
                         break
                 translated["checked"] = "privately (tree under test differs from /repo)"
                 if not ok:
-                    V.disagreement("translation tie: pyramid.py as translated by harness/py2coq.py no longer agrees with the "
-                                   "hand-written position algebra (Proofs/PyramidSrcP.v)", dict(part="translated-source", log=log),
-                                   "every lemma of PyramidSrcP.v checks against the translated source", "a proof no longer checks", None)
+                    V.disagreement(f"translation tie: {srcname} as translated by harness/py2coq.py no longer agrees with the "
+                                   f"hand-written {what} (Proofs/{prf}.v)", dict(part="translated-source", log=log),
+                                   f"every lemma of {prf}.v checks against the translated source", "a proof no longer checks", None)
             else:
-                translated["checked"] = "by the build (Properties/C13.vo depends on Generated/PyramidSrc.v)"
+                translated["checked"] = f"by the build (Properties/{pid}.vo depends on Generated/{gen}.v)"
         except py2coq.Unsupported as e:
-            V.disagreement("translation tie: toasty/pyramid.py left the subset harness/py2coq.py translates",
-                           dict(part="translated-source", error=str(e)), "translatable position arithmetic", str(e), None)
+            V.disagreement(f"translation tie: {srcname} left the subset harness/py2coq.py translates",
+                           dict(part="translated-source", error=str(e)), "translatable source", str(e), None)
 
     # 2c. answers of the TOAST geometry API must not depend on the calls made before
     hist_calls = None
